@@ -20,6 +20,8 @@ CHECKS = {
          "Lean 4 proof (case analysis + field arithmetic) + model/implementation correspondence shared with C01"),
  "C04": ("Theorems over the per-step model of ShaftLine.do_power_balance for arbitrary engine lists, loads and optional PTI/PTO: engines + PTI/PTO shaft power = loads whenever running engines exist where engine power is needed (either sign of PTI/PTO power), running engines at one common fraction, stopped engines at zero, full-PTI: PTI carries the whole load and every engine delivers zero, lines independent, status after the call, and the exact imbalance when no engine is available. Correspondence on random mechanical plants incl. geared and dual-fuel engines.",
          "Lean 4 proof (case analysis on full-PTI / available power + arithmetic) + model/implementation correspondence on random shaft-line plants"),
+ "C06": ("Theorems for an arbitrary efficiency characteristic: efficiency in use within [1 %,100 %]; forward formula: supplied x efficiency = delivered and supply >= delivery in both flow directions; zero flow gives zero; with an exact inverse no energy is created in reverse flow and both round trips are exact (also for electric machines in every role); array dispatch = scalar dispatch given inv 0 = 0; serial train efficiency = product of clamped stage efficiencies at their own loads, within (0,1]; zero residual of the strict balance = exact round trip. PARTIAL: for the interpolated inverse only a 1 % (sample spacing) bound is proved under a knot-exact/monotone contract; the 0.5 % and 1e-6 figures depend on scipy and are validated per case on the load range the curve covers; outside it they fail (known finding D16).",
+         "Lean 4 proof (order/field arithmetic, parametric in the curve) + correspondence with curve and inverse oracles read from the real component"),
  "C15": ("Theorems over the model of min_load_table_dict + PmsLoadTable.on_pattern for every list of positive ratings (any length >= 1), every positive fraction and every load: sufficient (strictly above the load whenever some set is), all-on otherwise, minimal among non-empty sets, monotone, non-empty, loading <= fraction after an equal-sharing balance; and for the equal-size rule of feems.runsimulation (ceil): non-empty, sufficient, minimal, monotone. Proofs use only 'sorted + permutation of all patterns'. Correspondence compares table lookups exactly (integer ratings x dyadic fractions make double thresholds exact) incl. every threshold, ties, negative loads and loads above capacity; the MachineryCalculation front end is exercised by C16/C12.",
          "Lean 4 proof (sortedness + permutation argument over the pattern table) + model/implementation correspondence at and around every switching threshold"),
  "C17": ("Theorems over the storage model: energy = interval-weighted sum of terminal power x charging efficiency / discharging efficiency after converter loss, SoC formula (battery kWh, supercapacitor Wh), accumulated series starts at 0, has n+1 entries and ends at the total, stored energy never exceeds terminal energy for any series (so equal charge and discharge never raise the SoC), closed form for one charge/discharge. The converter is an abstract function constrained only by 'never creates energy'; in the correspondence its per-sample value is an oracle read from the real converter.",
